@@ -6910,13 +6910,16 @@ impl Machine {
         let seed = self.deref_register(1);
 
         match Number::try_from((seed, &self.machine_st.arena.f64_tbl)) {
+            // any integer is a valid seed: negative and large seeds are reduced
+            // modulo 2^64 (two's complement), not unwrapped
             Ok(Number::Fixnum(n)) => {
-                let n: u64 = Integer::from(n).try_into().unwrap();
+                let n: u64 = n.get_num() as u64;
                 let rng: StdRng = SeedableRng::seed_from_u64(n);
                 self.rng = rng;
             }
             Ok(Number::Integer(n)) => {
-                let n: u64 = (&*n).try_into().unwrap();
+                let low: Integer = &*n & Integer::from(u64::MAX);
+                let n: u64 = (&low).try_into().unwrap();
                 let rng: StdRng = SeedableRng::seed_from_u64(n);
                 self.rng = rng;
             }
